@@ -52,8 +52,8 @@ theorem idle_held (cfg : Cfg) (tbl : List Nat) (ops : List Op) (now : Nat) (tick
         · exact absurd hnone (read_due cfg tbl ops pre post q j c f now ticks hsess hj hf hg hs hlt).1
         · exact hge
 
-/-- a waiting object whose count / carousel gap allows a transfer, that is published and past its start time, while `read(now)` returns `None`:
-    every slot of its priority queue is occupied -/
+/-- a waiting object whose count / carousel gap allows a transfer, that is published and past its start time,
+    while `read(now)` returns `None`: every slot of its priority queue holds a transfer whose pacing gate is closed -/
 theorem idle_waiting (cfg : Cfg) (tbl : List Nat) (ops : List Op) (now : Nat) (ticks : List (Nat × Nat))
     (hsorted : (cfg.queues.map (fun x => x.1)).Pairwise (fun a b => a < b))
     (hnone : (read (run (init cfg tbl) ops) now ticks).2 = Out.none)
@@ -62,8 +62,10 @@ theorem idle_waiting (cfg : Cfg) (tbl : List Nat) (ops : List Op) (now : Nat) (t
     (hcar : f.maxCount > f.info.count ∨ gapElapsed f now = true)
     (hpub : (run (init cfg tbl) ops).cfg.mode = .full → f.published = true)
     (hst : ∀ st, f.info.startTime = some st → st ≤ now) :
-    ∀ q ∈ (run (init cfg tbl) ops).sessions, q.prio = f.prio → ∀ (j : Nat), q.slots[j]? ≠ some none := by
-  intro q hqs hp j hfree
+    ∀ q ∈ (run (init cfg tbl) ops).sessions, q.prio = f.prio → ∀ (j : Nat) (curj : Option Cur),
+      q.slots[j]? = some curj →
+      ∃ c g, curj = some c ∧ getF (run (init cfg tbl) ops).objs c.key = some g ∧ gateBlocked g now = true := by
+  intro q hqs hp j curj hjs
   have hw := wf_run cfg tbl ops
   obtain ⟨f1, hf1, htr⟩ := hw.queueObj t hq
   rw [hf] at hf1; cases hf1
@@ -71,7 +73,26 @@ theorem idle_waiting (cfg : Cfg) (tbl : List Nat) (ops : List Op) (now : Nat) (t
   obtain ⟨t', ht'⟩ := findNext_some_of_exists (s := run (init cfg tbl) ops) (P := q.prio) (now := now)
     (run (init cfg tbl) ops).queue ⟨t, hq, f, hf, by rw [hp]; exact hel⟩
   obtain ⟨pre, post, hsess⟩ := List.append_of_mem hqs
-  exact absurd hnone (read_wait cfg tbl ops pre post q j t' now ticks hsorted hsess hfree ht'
-    (fun u _ g hg _ hw' => stale_run cfg tbl ops g (getF_mem hg) hw')).1
+  have hnav : ¬ Avail (run (init cfg tbl) ops) now curj := fun hav =>
+    absurd hnone (read_wait cfg tbl ops pre post q j t' now ticks hsorted hsess curj hjs hav ht'
+      (fun u _ g hg _ hw' => stale_run cfg tbl ops g (getF_mem hg) hw')).1
+  cases curj with
+  | none => exact absurd (Or.inl rfl) hnav
+  | some c =>
+    have hin : (q.prio, c) ∈ heldOf (run (init cfg tbl) ops) := by
+      unfold heldOf held
+      refine List.mem_flatMap.mpr ⟨q, hqs, ?_⟩
+      unfold heldQ heldSlots
+      exact List.mem_flatMap.mpr ⟨some c, List.mem_of_getElem? hjs, by simp [optHeld]⟩
+    obtain ⟨g, hg, _, _⟩ := hw.heldObj _ hin
+    refine ⟨c, g, rfl, hg, ?_⟩
+    cases hgate : gateBlocked g now with
+    | true => rfl
+    | false =>
+      exfalso
+      rcases idle_held cfg tbl ops now ticks hnone (q.prio, c) hin g hg with h1 | h1 | h1
+      · rw [hgate] at h1; cases h1
+      · exact hnav (Or.inr ⟨c, g, rfl, hg, hgate, Or.inl h1⟩)
+      · exact hnav (Or.inr ⟨c, g, rfl, hg, hgate, Or.inr h1⟩)
 
 end Flute.Sched
